@@ -291,12 +291,13 @@ func compareSegments(a, b segment) int {
 		return compareInt(a.numValue, b.numValue)
 	}
 
-	// One numeric, one string - in prerelease context, strings have precedence
+	// One numeric, one string - a string segment sorts below a number (Gem::Version#<=>),
+	// which is what makes 1.0.a a prerelease of 1.0 and 1.0.a.b older than 1.0.a
 	if a.isNumeric && !b.isNumeric {
-		return -1
+		return 1
 	}
 	if !a.isNumeric && b.isNumeric {
-		return 1
+		return -1
 	}
 
 	// Both strings - lexical comparison
